@@ -211,13 +211,20 @@ def calling_fails(ctx, case):
     # integer-valued points of the domain given as an integer array: the same values as for the float array
     ipts = np.array([k for k in (1, 2, 3, -1, -2, 0) if _in_dom(dom, k)][:3])
     if ipts.size and not (case['fn'] == 'reciprocal' and n == 0):      # numpy.reciprocal itself truncates on integer arrays
+        vf = vi = None
         try:
             with np.errstate(all='ignore'):
                 vf = np.array(_call(case, ipts.astype(float), n), dtype=float)
-                vi = np.array(_call(case, ipts.astype(int), n), dtype=float)
-        except Exception as ex:
-            vf = vi = None
-        if vf is not None and np.all(np.isfinite(vf)) and (vi.shape != vf.shape or not ok(vf, vi)):
+        except Exception:
+            vf = None
+        if vf is not None and np.all(np.isfinite(vf)):
+            try:
+                with np.errstate(all='ignore'):
+                    vi = np.array(_call(case, ipts.astype(int), n), dtype=float)
+            except Exception as ex:
+                return 'calling-int-exception-%s: nthderiv.%s raised %s at the integer points %s given as an int array (n=%d); the float call works' % (
+                    case['fn'], case['fn'], type(ex).__name__, ipts.tolist(), n)
+        if vf is not None and vi is not None and np.all(np.isfinite(vf)) and (vi.shape != vf.shape or not ok(vf, vi)):
             return 'calling-int-%s: nthderiv.%s at the integer points %s given as an int array differs from the float call (n=%d): %s vs %s' % (
                 case['fn'], case['fn'], ipts.tolist(), n, vi.tolist(), vf.tolist())
     if not ok(a, b):
